@@ -398,7 +398,8 @@ class Verifier:
         c.block[0] to the last assignment of c.block[1] (same statement list), executed from a
         state whose free variables are typed by c.params; ensures speak about the final values
         (plain names) and the initial ones (old_<name>)."""
-        first, last = c.block
+        first, last = c.block[:2]
+        nth = c.block[2] if len(c.block) > 2 else None   # end at the nth statement assigning `last`
 
         def assigns(stmt, name):
             tg = []
@@ -406,6 +407,8 @@ class Verifier:
                 tg = stmt.targets
             elif isinstance(stmt, (ast.AugAssign, ast.AnnAssign)):
                 tg = [stmt.target]
+            if isinstance(stmt, ast.With):      # transparent context managers (st_With)
+                return any(assigns(x, name) for x in stmt.body)
             return any(isinstance(x, ast.Name) and x.id == name for t in tg for x in ast.walk(t))
         found = None
         for n in ast.walk(fdef):
@@ -421,7 +424,8 @@ class Verifier:
                            if any(assigns(x, last) for x in ast.walk(lst[i])
                                   if isinstance(x, ast.stmt))]
                     if his:
-                        found = lst[lo:his[-1] + 1]
+                        end = his[-1] if nth is None else his[min(nth, len(his) - 1)]
+                        found = lst[lo:end + 1]
                         break
             if found:
                 break
